@@ -215,10 +215,10 @@ def heap_wf_axioms(h):
     # closed: every reference stored in an allocated object is allocated
     al = al0
     ax.append(forall([r, i], z3.Implies(z3.And(al, i >= 0, i < h.llen(r), is_ref(h.lget(r, i))),
-                                        V.rv(h.lget(r, i)) < h.alloc), [h.lget(r, i)]))
+                                        z3.And(V.rv(h.lget(r, i)) >= 0, V.rv(h.lget(r, i)) < h.alloc)), [h.lget(r, i)]))
     ax.append(forall([r, k], z3.Implies(z3.And(al, h.dhas(r, k), is_ref(h.dget(r, k))),
-                                        V.rv(h.dget(r, k)) < h.alloc), [h.dget(r, k)]))
-    ax.append(forall([r, k], z3.Implies(z3.And(al, h.dhas(r, k), is_ref(k)), V.rv(k) < h.alloc),
+                                        z3.And(V.rv(h.dget(r, k)) >= 0, V.rv(h.dget(r, k)) < h.alloc)), [h.dget(r, k)]))
+    ax.append(forall([r, k], z3.Implies(z3.And(al, h.dhas(r, k), is_ref(k)), z3.And(V.rv(k) >= 0, V.rv(k) < h.alloc)),
                      [h.dhas(r, k)]))
     return ax
 
@@ -227,9 +227,10 @@ def closed_at(h, r):
     """every reference stored in object r (heap version h) is allocated"""
     i = z3.Int("i!")
     k = z3.Const("k!", V)
-    return [forall([i], z3.Implies(z3.And(i >= 0, i < h.llen(r), is_ref(h.lget(r, i))), V.rv(h.lget(r, i)) < h.alloc), [h.lget(r, i)]),
-            forall([k], z3.Implies(z3.And(h.dhas(r, k), is_ref(h.dget(r, k))), V.rv(h.dget(r, k)) < h.alloc), [h.dget(r, k)]),
-            forall([k], z3.Implies(z3.And(h.dhas(r, k), is_ref(k)), V.rv(k) < h.alloc), [h.dhas(r, k)])]
+    ok = lambda t: z3.And(V.rv(t) >= 0, V.rv(t) < h.alloc)
+    return [forall([i], z3.Implies(z3.And(i >= 0, i < h.llen(r), is_ref(h.lget(r, i))), ok(h.lget(r, i))), [h.lget(r, i)]),
+            forall([k], z3.Implies(z3.And(h.dhas(r, k), is_ref(h.dget(r, k))), ok(h.dget(r, k))), [h.dget(r, k)]),
+            forall([k], z3.Implies(z3.And(h.dhas(r, k), is_ref(k)), ok(k)), [h.dhas(r, k)])]
 
 
 def dict_wf_at(h, r):
